@@ -3,6 +3,8 @@ import Selene.Lua.Read
 import Selene.Scope.Lints
 import Selene.Scope.Spec
 import Selene.Scope.Core
+import Selene.Scope.TopProof
+import Selene.Scope.SpecProof
 namespace Driver.Scope
 open Selene Selene.Lua Selene.Scope
 
@@ -164,8 +166,12 @@ def handleTables : Handler := fun input impl =>
         let undefToks : List Nat := idiags.filterMap fun d => match d with
           | .list [.str "undefined_variable", .list [a, _], _, _] => a.asNat?
           | _ => none
-        let mustNot := fun (o : Spec.Occ) => o.binding.isSome || isStdRoot o.name || spec.topAssigned.contains o.name || (o.name == "..." && !o.inFunction)
-        let must := fun (o : Spec.Occ) => o.binding.isNone && !isStdRoot o.name && !spec.anyAssigned.contains o.name && !(o.name == "..." && !o.inFunction)
+        -- the two notions the theorems `C01_sound` / `C01_complete` are stated with: globals assigned in the outermost
+        -- block (on the syntax tree) and names some plain-name target assigns as a global (among the resolver's occurrences)
+        let topGlobals := TopProof.topGlobals chunk.block
+        let assignedGlobals := (spec.occs.filter SpecProof.assignsGlobal).map (·.name)
+        let mustNot := fun (o : Spec.Occ) => o.binding.isSome || isStdRoot o.name || topGlobals.contains o.name || (o.name == "..." && !o.inFunction)
+        let must := fun (o : Spec.Occ) => o.binding.isNone && !isStdRoot o.name && !assignedGlobals.contains o.name && !(o.name == "..." && !o.inFunction)
         let fp := readOccs.filter fun o => mustNot o && undefToks.contains o.tok
         let c01b := fp.head?.map fun o =>
           s!"[C01] false-positive: undefined_variable reported on `{o.name}` at token {o.tok} ({if o.binding.isSome then "locally bound" else if isStdRoot o.name then "library name" else if o.name == "..." then "main-chunk vararg" else "assigned in the outermost block"})"
